@@ -1025,8 +1025,13 @@ class PDFType1Font(PDFSimpleFont):
             widths = cast(
                 Dict[Union[str, int], float], int_widths
             )  # implicit int->float
+            std14 = True
         except KeyError:
-            descriptor = dict_value(spec.get("FontDescriptor", {}))
+            std14 = False
+        if not std14 or "Widths" in spec:
+            # explicit widths take precedence over the built-in metrics
+            if not std14 or "FontDescriptor" in spec:
+                descriptor = dict_value(spec.get("FontDescriptor", {}))
             firstchar = int_value(spec.get("FirstChar", 0))
             # lastchar = int_value(spec.get('LastChar', 255))
             width_list = list_value(spec.get("Widths", [0] * 256))
